@@ -128,6 +128,9 @@ def r_tag_table(ck: Checker) -> None:
     tag = f"{vp}.get({wkeys[0] if wkeys else 'TYPE_KEY'})"
     bad = []
     k_str = f"isinstance({tag}, str)"
+    # `cls` is re-bound only to the tagged lookup (if at all)
+    stores_cls_elsewhere = any(isinstance(st_, ast.Assign) and any(isinstance(t_, ast.Name) and t_.id == "cls" for t_ in st_.targets)
+                               and norm(st_.value) not in (f"TYPES.get({tag}, None)", f"TYPES.get({tag})") for st_ in walk_body(ds.node.body))
     for lf in leaves:
         a = lf.assign
         if k_str not in a:
@@ -144,6 +147,8 @@ def r_tag_table(ck: Checker) -> None:
         names = [n for n, v in stores if v in tagged or v == "cls"]
         czname = names[-1] if names else None
         cz = [v for n, v in stores if n == czname][-1] if czname else None
+        if czname is None and not stores_cls_elsewhere and any(f"cls.from_dict({vp}" in norm(st_) for st_ in ds.node.body for st_ in ast.walk(st_) if isinstance(st_, ast.Call)):
+            czname, cz = "cls", "cls"  # the receiving class itself is the class variable (re-bound only under a tag)
         if czname is None:
             raise Unsupported(f"{MIXIN}._deserialize: class variable not identified on path {a}", ds.node)
         if a[k_str] and cz not in tagged:
